@@ -1045,7 +1045,12 @@ fn finale(c: &mut Ctx) -> Result<(), String> {
     if has(&c.cfg, "C18") {
         let _ = c.w.nodes[0].compute_daily_log();
         drain_events(c);
-        check_c18(c)?;
+        if c.w.nodes[0].events_lagged > 0 {
+            // the 16-slot broadcast overflowed before the harness read it: the subscriber saw an error, nothing can be judged
+            c.w.probe("c18_subscriber_lagged_not_judged");
+        } else {
+            check_c18(c)?;
+        }
     }
     Ok(())
 }
